@@ -3,7 +3,7 @@ from engine import pyside
 from engine.checks import py_common
 
 FUNCS = [('modeling.py', 'contracts.py.modeling_op_spec', f) for f in (
-    'op.addconstraint', 'op.delconstraint', 'op.__setattr__', 'op.variables',
+    'op.__init__', 'op.addconstraint', 'op.delconstraint', 'op.__setattr__', 'op.variables',
     'op.constraints', 'op.inequalities', 'op.equalities')]
 
 
@@ -13,12 +13,21 @@ def run(report, tier, seed):
     py_common.install_replayer(report, ('py_battery_modeling',))
     report.floor = 30
     report.not_decided += [
-        'op.__init__ establishes the invariant (its nested loops accumulate '
-        'over a list with repetitions, outside the pointwise loop rule)',
+        'op.__init__ establishes the invariant for constraint lists of '
+        'arbitrary length (only the bounded scenarios below are checked: its '
+        'nested loops accumulate over a list with repetitions, outside the '
+        'pointwise loop rule)',
         "'solving the edited problem equals solving a fresh op' beyond the "
         "bookkeeping invariant (the LP assembly reads only the containers "
         "under the invariant; equality of optimal values is numerical)",
         'fromfile rebuilding the containers']
+    report.bounded += [
+        'op.__init__ (constructor): BOUNDED stand-in, not counted as proved '
+        'for all inputs -- the invariant and the recorded contents are '
+        'checked for constraints = None, a single constraint, and lists of '
+        '0, 1, 2 and 3 symbolic constraints (each of either type, equal or '
+        'different, over arbitrary variable sets) with an arbitrary '
+        'objective; the loops are unrolled over these lists']
     report.assumptions += [
         'the variable set of a constraint does not change after creation',
         'contracts of dict/list operations on the abstract container view '
